@@ -12,7 +12,7 @@ from . import sym, extract
 from .sym import SVal, SInt, SBool, SOpt, SEnum, SSeq, Unsupported, _ie, _be, is_sym, merge
 from .spec import SSet, SpecFn, empty_set
 from .engine import _handle as engine_handle
-from .engine import (HHandleList, PyLong, STupleSeq, HRefTable, Engine, ReturnEx, BreakEx, ContinueEx, PathEnd, PyRaise, Opaque, HList, HSetList, HSymList,
+from .engine import (HPairDict, HHandleList, PyLong, STupleSeq, HRefTable, Engine, ReturnEx, BreakEx, ContinueEx, PathEnd, PyRaise, Opaque, HList, HSetList, HSymList,
                      HIter, HMap, HFile, SObj, Closure, BoundMethod, Frame, Loop, Contract, call_by_names, conjuncts, MISSING, ConstFn, SUnion, HEnum, MethodOf, SuperProxy, SChars, HSink, AnyExc, HAcc)
 
 
@@ -337,6 +337,9 @@ class Interp(Engine):
             except IndexError:
                 raise PyRaise(IndexError, "list assignment index out of range", node)
             return
+        if isinstance(base, HPairDict):
+            base.hseq = z3.Concat(base.hseq, z3.Unit(_ie(engine_handle(idx))), z3.Unit(_ie(engine_handle(v))))
+            return
         if isinstance(base, dict) and getattr(base, "_pyvc_local", False):
             if is_sym(idx) or isinstance(idx, Opaque):
                 if not hasattr(base, "_symitems"):
@@ -562,7 +565,7 @@ class Interp(Engine):
             return PyLong(self.fresh_int(name))
         if isinstance(cur, STupleSeq) or (isinstance(cur, tuple) and len(cur) == 0 and name in ("ret",)):
             return STupleSeq(sym.ZSeq(z3.Const(self.fresh(name + "!seq"), z3.SeqSort(z3.IntSort()))))
-        if isinstance(cur, (HSetList, HSymList, HIter, HList, HMap, SObj, HAcc)):
+        if isinstance(cur, (HSetList, HSymList, HIter, HList, HMap, SObj, HAcc, HPairDict)):
             return cur      # heap objects are havocked in place (see havoc_heap)
         raise Unsupported("cannot havoc loop variable %r of kind %s; declare it in the loop contract" % (name, type(cur).__name__))
 
@@ -601,6 +604,9 @@ class Interp(Engine):
             for k2, v2 in list(obj.__dict__["_f"].items()):
                 if isinstance(v2, (HFile, HRefTable, HIter, HSymList, HSetList, HSink)):
                     self.havoc_heap(v2, "%s.%s" % (name, k2), mutated)
+        elif isinstance(obj, HPairDict):
+            if mutated:
+                obj.hseq = z3.Const(self.fresh(name + "!pairs"), z3.SeqSort(z3.IntSort()))
         elif isinstance(obj, HHandleList):
             if mutated:
                 obj.hseq = z3.Const(self.fresh(name + "!hseq"), z3.SeqSort(z3.IntSort()))
@@ -647,7 +653,7 @@ class Interp(Engine):
                 obj = f.lookup(nm)
             except PyRaise:
                 continue
-            if isinstance(obj, (HSetList, HSymList, HIter, HList, HFile, HRefTable, SObj, HSink, HAcc)) and id(obj) not in seen:
+            if isinstance(obj, (HPairDict, HSetList, HSymList, HIter, HList, HFile, HRefTable, SObj, HSink, HAcc)) and id(obj) not in seen:
                 seen.add(id(obj))
                 if nm in mutated_names:
                     self.havoc_heap(obj, nm, True)
@@ -1579,7 +1585,8 @@ class Interp(Engine):
             return SSeq(cnt.e if isinstance(cnt, SInt) else cnt, get, kind="list")
         result = None
         if c.result is not None:
-            result, hs = c.result(self, "r_" + c.qualname.split(".")[-1])
+            # fresh per call: two calls of the same callee on one path have unrelated results
+            result, hs = c.result(self, self.fresh("r_" + c.qualname.split(".")[-1]))
             for h in hs:
                 self.run.pc.append(h)
         if c.effect is not None:
@@ -2063,6 +2070,9 @@ def _m_tuple(self, args, kwargs, node, f):
 
 @model(dict)
 def _m_dict(self, args, kwargs, node, f):
+    if not args and not kwargs and getattr(getattr(self, "current", None), "handle_dicts", False):
+        # the contract under verification states its result as a dict of abstract object handles
+        return HPairDict()
     d = _LocalDict()
     if args:
         v = args[0]
